@@ -204,6 +204,9 @@ func Parse(input string) (Version, error) {
 }
 
 func parseInto(result *Version, input string) error {
+	/* start from scratch: the epoch and the revision are only assigned when
+	 * the input has them, so a reused Version must not keep its old ones */
+	*result = Version{}
 	trimmed := strings.TrimSpace(input)
 	if trimmed == "" {
 		return fmt.Errorf("version string is empty")
